@@ -68,8 +68,10 @@ class Harness(object):
       r = ('ret', tapemod.srepr(fn(o, d)))
     except NAME_ERRORS:
       r = ('exc', 'NameError')
-    except tapemod.TapeError:
-      raise
+    except tapemod.TapeError as e:
+      # only possible when replaying the reference's tape on the artefact under test:
+      # it asked the environment a different question than the original did
+      r = ('exc', 'DIVERGED(%s)' % e)
     except RecursionError:
       r = ('exc', 'RecursionError')
     except Exception as e:  # pylint:disable=broad-except
